@@ -70,6 +70,42 @@ pub fn run(t: &[&str]) -> Vec<i128> {
                 Ok(c) => show(c.finalize(id), cap),
             }
         }
+        "c09wc" | "c09rc" => {
+            // every command produced by chunks(): its own cmd_len / maximum_ack_len / serialization
+            // (length-prefixed per chunk), request ids id, id+1, ...
+            let (a, n, seed, id, budget): (u64, usize, u64, u16, usize) =
+                (parse(t[1]), parse(t[2]), parse(t[3]), parse(t[4]), parse(t[5]));
+            let mut out = vec![0];
+            if t[0] == "c09wc" {
+                let data = pat_data(seed, n);
+                let w = match cmd::WriteMem::new(a, &data) {
+                    Err(e) => return vec![1, eclass(&e)],
+                    Ok(w) => w,
+                };
+                match w.chunks(budget) {
+                    Err(e) => return vec![1, eclass(&e)],
+                    Ok(it) => {
+                        for (i, c) in it.enumerate() {
+                            let one = show(c.finalize(id.wrapping_add(i as u16)), -1);
+                            out.push(one.len() as i128);
+                            out.extend(one);
+                        }
+                    }
+                }
+            } else {
+                match cmd::ReadMem::new(a, n as u16).chunks(budget) {
+                    Err(e) => return vec![1, eclass(&e)],
+                    Ok(it) => {
+                        for (i, c) in it.enumerate() {
+                            let one = show(c.finalize(id.wrapping_add(i as u16)), -1);
+                            out.push(one.len() as i128);
+                            out.extend(one);
+                        }
+                    }
+                }
+            }
+            out
+        }
         k => panic!("unknown kind {}", k),
     }
 }
